@@ -302,3 +302,76 @@ func c05FreshFiles(p *Prog, r *Report) {
 		r.Ob("run:non-append", p.Pos(rfi.Decl.Pos()), n >= 3 && bad == "", fmt.Sprintf("%d result files opened by Run, opened in append mode: %s", n, orStr(bad, "none")))
 	}
 }
+
+// ---------------------------------------------------------------- a record carries the bound value, not a processed one
+
+// recordValueRule: WriteLine hands each column's value to the formatter.  What it hands over is the bound variable's
+// value — dereferenced, indexed, multiplied by the column's modifier — and nothing else: a call around it (a rounding,
+// a clean-up of "-0.0", a clamp) changes what every output configuration with enough digits shows, and a balance
+// taken from the result files no longer closes although the model's does.
+func recordValueRule(p *Prog, r *Report, rule string) {
+	r.Rule(rule, "the record writer formats the bound value itself: the value argument of every field added in WriteLine is a dereference, an element, the not-available value or a local assigned only from those (optionally times the column's modifier) — never the result of a call", 5)
+	fi := p.Funcs["hermes.OutputConfig.WriteLine"]
+	if fi == nil {
+		r.Ob("record-value", "-", false, "hermes.OutputConfig.WriteLine not found")
+		return
+	}
+	info := fi.Pkg.TypesInfo
+	hasCall := func(e ast.Expr) bool {
+		f := false
+		ast.Inspect(e, func(m ast.Node) bool {
+			if c, ok := m.(*ast.CallExpr); ok {
+				// type conversions are not calls
+				if tv, has := info.Types[c.Fun]; !has || !tv.IsType() {
+					f = true
+				}
+			}
+			return true
+		})
+		return f
+	}
+	n := 0
+	ast.Inspect(fi.Decl.Body, func(m ast.Node) bool {
+		c, ok := m.(*ast.CallExpr)
+		if !ok || len(c.Args) != 2 {
+			return true
+		}
+		se, ok := c.Fun.(*ast.SelectorExpr)
+		if !ok || se.Sel.Name != "Add" {
+			return true
+		}
+		n++
+		arg := c.Args[1]
+		good := !hasCall(arg)
+		why := ""
+		if !good {
+			why = "the value is the result of a call: " + types.ExprString(arg)
+		}
+		// a local: every assignment to it in the function is call-free
+		if id, isId := ast.Unparen(arg).(*ast.Ident); isId && good {
+			o := info.Uses[id]
+			ast.Inspect(fi.Decl.Body, func(q ast.Node) bool {
+				as, isAs := q.(*ast.AssignStmt)
+				if !isAs {
+					return true
+				}
+				for k, l := range as.Lhs {
+					lid, isL := l.(*ast.Ident)
+					if !isL || (info.Defs[lid] != o && info.Uses[lid] != o) || k >= len(as.Rhs) {
+						continue
+					}
+					if hasCall(as.Rhs[k]) {
+						good = false
+						why = "the local " + id.Name + " is assigned the result of a call: " + types.ExprString(as.Rhs[k])
+					}
+				}
+				return true
+			})
+		}
+		r.Ob("record-value", p.Pos(c.Pos()), good, fmt.Sprintf("field value %s is the bound value itself: %v %s", types.ExprString(arg), good, why))
+		return true
+	})
+	if n == 0 {
+		r.Ob("record-value", "-", false, "no field is added to the record in WriteLine")
+	}
+}
